@@ -1810,7 +1810,10 @@ class Mailbox:
                     f"  WHERE mailbox_id=? AND name in ({qms})",
                     (self.id, *(list(names_to_delete))),
                 )
-                await self.server.db.commit()
+                # NOTE: No commit here. The sequences that went away and the
+                #       ones that were added or changed (below) are one change
+                #       to the mailbox and have to reach the db together.
+                #
             for name in new_names:
                 # sequence = ",".join(
                 #     str(x) for x in sorted(self.sequences[name])
